@@ -18,6 +18,10 @@
 // n/m/degrees/IsEdge rows of a few sampled vertices (the two endpoints after AddEdge/RemoveEdge, otherwise
 // 0, n/2, n-1 and the first three arguments modulo n)/neighbour lists (of the sampled vertices after AddEdge/RemoveEdge, of all vertices
 // after the other operations); at the end every graph is dumped with all rows and all lists.
+//
+// Provenance mode: a header `p<dk><sk>,<n0>,<salt>,<a>.<b>,...` (see prov.go): the history starts
+// from graphs built in other ways than NewDense(n, nil)/NewSparse(n, nil); the observation
+// begins with `I:` and the dump of the start graphs and has no strict part.
 package main
 
 import (
@@ -75,15 +79,57 @@ func parseTok(s string) tok {
 	return t
 }
 
-func parseCase(line string) (bool, int, []tok) {
+// header of a case: plain `<n0>`, large `L<n0>`, provenance `p<dk><sk>,<n0>,<salt>,<a>.<b>,...`
+type header struct {
+	large  bool
+	prov   bool
+	dk, sk byte
+	n0     int
+	salt   uint64
+	raw    [][2]int
+}
+
+func parseCase(line string) (header, []tok) {
 	parts := strings.SplitN(line, ";", 2)
-	large := strings.HasPrefix(parts[0], "L")
-	n0, _ := strconv.Atoi(strings.TrimPrefix(parts[0], "L"))
+	var h header
+	switch {
+	case strings.HasPrefix(parts[0], "L"):
+		h.large = true
+		h.n0, _ = strconv.Atoi(parts[0][1:])
+	case strings.HasPrefix(parts[0], "p"):
+		f := strings.Split(parts[0], ",")
+		h.prov, h.dk, h.sk = true, f[0][1], f[0][2]
+		h.n0, _ = strconv.Atoi(f[1])
+		h.salt, _ = strconv.ParseUint(f[2], 10, 64)
+		for _, e := range f[3:] {
+			ab := strings.Split(e, ".")
+			if len(ab) != 2 {
+				continue
+			}
+			a, _ := strconv.Atoi(ab[0])
+			b, _ := strconv.Atoi(ab[1])
+			h.raw = append(h.raw, [2]int{a, b})
+		}
+	default:
+		h.n0, _ = strconv.Atoi(parts[0])
+	}
 	var toks []tok
 	for _, f := range strings.Fields(parts[1]) {
 		toks = append(toks, parseTok(f))
 	}
-	return large, n0, toks
+	return h, toks
+}
+
+func caseLineP(dk, sk byte, n0 int, salt uint64, raw [][2]int, toks []tok) string {
+	hd := fmt.Sprintf("p%c%c,%d,%d", dk, sk, n0, salt)
+	for _, e := range raw {
+		hd += fmt.Sprintf(",%d.%d", e[0], e[1])
+	}
+	s := make([]string, len(toks))
+	for i, t := range toks {
+		s[i] = t.String()
+	}
+	return hd + ";" + strings.Join(s, " ")
 }
 
 func caseLine(n0 int, toks []tok) string {
@@ -282,10 +328,20 @@ func apply(st []graph.EditableGraph, t tok) ([]graph.EditableGraph, bool, []int)
 }
 
 func exec(line string) hx.Result {
-	large, n0, toks := parseCase(line)
+	h, toks := parseCase(line)
+	large, n0 := h.large, h.n0
 	dst := []graph.EditableGraph{graph.NewDense(n0, nil)}
 	sst := []graph.EditableGraph{graph.NewSparse(n0, nil)}
 	var sb strings.Builder
+	var provBuckets []string
+	if h.prov {
+		es := cleanEdges(n0, h.raw)
+		d, okd := buildDense(h.dk, n0, es, hx.NewRng(h.salt))
+		s, oks := buildSparse(h.sk, n0, es, hx.NewRng(h.salt+1))
+		dst[0], sst[0] = d, s
+		provBuckets = []string{"mode=prov", fmt.Sprintf("dprov=%c:%v", h.dk, okd), fmt.Sprintf("sprov=%c:%v", h.sk, oks)}
+		sb.WriteString("I:D:" + dumpAll(dst) + "|S:" + dumpAll(sst))
+	}
 	interesting, nontrivial := false, false
 	kinds := map[byte]int{}
 	maxN := n0
@@ -298,7 +354,7 @@ func exec(line string) hx.Result {
 			interesting = true
 		}
 		kinds[t.kind]++
-		if k > 0 {
+		if k > 0 || h.prov {
 			sb.WriteByte(' ')
 		}
 		if large {
@@ -344,6 +400,12 @@ func exec(line string) hx.Result {
 		if c > 0 {
 			buckets = append(buckets, "has:"+string(k))
 		}
+	}
+	buckets = append(buckets, provBuckets...)
+	if h.prov {
+		// the model starts from the abstract graph: bytes and capacity of the start value are
+		// not determined, so there is no strict part
+		return hx.Result{Obs: sb.String(), Nontrivial: nontrivial, Buckets: buckets}
 	}
 	return hx.Result{Obs: sb.String() + " ## " + strings.Join(strict, ";"), Nontrivial: nontrivial, Buckets: buckets}
 }
@@ -731,6 +793,36 @@ func genLargeCases(g *hx.Gen) {
 	g.Note(fmt.Sprintf("large mode: %d histories on graphs with 20..80 vertices and a hub of degree c*k-1..c*k+2 (k = |V| of the induced subgraphs, c a ratio threshold) or at 8/16/32/64 +-1", count))
 }
 
+// genProvCases: short histories that start from graphs of every provenance (see prov.go).
+func genProvCases(g *hx.Gen) {
+	r := g.Rng
+	count := g.Pick(480, 24000)
+	for c := 0; c < count; c++ {
+		dk := denseProv[c%len(denseProv)]
+		sk := sparseProv[(c/len(denseProv))%len(sparseProv)]
+		n0 := r.Range(2, 7)
+		den := r.Range(1, 4)
+		var raw [][2]int
+		for a := 0; a < n0; a++ {
+			for b := 0; b < a; b++ {
+				if r.Chance(den, 5) {
+					if r.Bool() {
+						raw = append(raw, [2]int{a, b + n0*r.Intn(2)})
+					} else {
+						raw = append(raw, [2]int{b, a})
+					}
+				}
+			}
+		}
+		toks := genHistory(r, n0, r.Range(1, 16), r.Range(3, 9))
+		if r.Chance(1, 3) {
+			toks = append([]tok{{'r', 0, []int{r.Intn(n0)}}}, toks...)
+		}
+		g.Emit(caseLineP(dk, sk, n0, r.U64()>>1, raw, toks))
+	}
+	g.Note(fmt.Sprintf("provenance mode: %d histories starting from NewDense with arbitrary non-zero bytes, ChromaticIndex's array, ComplementDense, Graph6Decode/Sparse6Decode results, NewSparse with unsorted repeated lists, Copy and InducedSubgraph of those, edited-down graphs", count))
+}
+
 func gen(g *hx.Gen) {
 	emit := func(n0 int, toks []tok) { g.Emit(caseLine(n0, toks)) }
 	// corpus: remove a middle vertex, re-add within the stale capacity, edit copy and source
@@ -783,6 +875,7 @@ func gen(g *hx.Gen) {
 		exh(2, 4)
 	}
 	genLargeCases(g)
+	genProvCases(g)
 	count := g.Pick(5000, 200000)
 	for i := 0; i < count; i++ {
 		n0 := g.Rng.Intn(6)
